@@ -17,7 +17,7 @@ def gen_case(rng):
         return {'train': trained.gen_train_case(rng, max_len_choices=(21,), coverages=(0.6, 1.0, 0.3)), 'spec': {'base': ['(trained)']},
                 'flags': {'skip_brute': True, 'all_lower': rng.random() < 0.3, 'folder': rng.choice(['Grammar', 'Grammar', 'Prince'])}}
     mg, xg, ml = rng.choice([(1, 4, 4), (2, 5, 3), (3, 6, 3), (2, 4, 5)])
-    spec = rulesets.gen_spec(rng, min_groups=mg, max_groups=xg, max_len=ml, pool=rng.choice(['dyadic', 'dyadic3', 'equal', 'decimal', 'thirds', 'counts', 'tiny', 'random']))
+    spec = rulesets.gen_spec(rng, min_groups=mg, max_groups=xg, max_len=ml, pool=rng.choice(['dyadic', 'dyadic3', 'equal', 'decimal', 'thirds', 'counts', 'tiny', 'random', 'nearties']))
     if spec.get('omen') and len(spec['omen']['probs']) >= 2 and rng.random() < 0.5:
         spec['omen']['probs'][1][1] = spec['omen']['probs'][0][1]      # two OMEN levels tie
     flags = {'skip_brute': rng.random() < 0.3, 'all_lower': rng.random() < 0.3, 'folder': 'Prince' if rng.random() < 0.1 else 'Grammar'}
